@@ -276,6 +276,47 @@ fn gen_input(rng: &mut Rng, class: SizeClass, buf: usize, hints: &mut Vec<(usize
     out
 }
 
+/// Long inputs, one time in three: pad with leading whitespace so that the TOTAL length is
+/// k * buf + d, d in {-1, 0, 0, 0, 1}: the stream then ends exactly where a full-buffer delivery
+/// ends (end of input discovered by a read issued while the buffer is exactly full / empty).
+fn pad_to_buffer_multiple(rng: &mut Rng, input: &mut Vec<u8>, hints: &mut Vec<(usize, ROp)>, buf: usize) {
+    if buf == 0 {
+        return;
+    }
+    if rng.chance(1, 2) {
+        // a dense tail: n one-byte tokens with single separators and no trailing newline, so that
+        // the stream ends with the minimal number of bytes a read_vec(n) / tuple read needs
+        while input.last().map(|b| is_ws(*b)).unwrap_or(false) {
+            input.pop();
+        }
+        if !input.is_empty() {
+            input.push(b'\n');
+        }
+        let n = rng.urange(1, 8);
+        let ty = *rng.pick(&[IntTy::U8, IntTy::I32, IntTy::U64, IntTy::I128, IntTy::Usize]);
+        hints.retain(|h| h.0 < input.len());
+        hints.push((input.len(), ROp::Vec(ElemTy::Int(ty), n)));
+        for i in 0..n {
+            if i > 0 {
+                input.push(b' ');
+            }
+            input.push(b'0' + rng.below(10) as u8);
+        }
+    }
+    let d: i64 = *rng.pick(&[-1i64, 0, 0, 0, 1]);
+    let k = input.len() / buf + 1;
+    let desired = (k * buf) as i64 + d;
+    let extra = (desired - input.len() as i64).max(0) as usize % (buf + 2);
+    if extra == 0 {
+        return;
+    }
+    let pad: Vec<u8> = (0..extra).map(|i| if i % 97 == 96 { b'\n' } else { b' ' }).collect();
+    input.splice(0..0, pad);
+    for h in hints.iter_mut() {
+        h.0 += extra;
+    }
+}
+
 fn fitting_int_types(tok: &[u8]) -> Vec<IntTy> {
     ALL_INT.iter().copied().filter(|t| parse_int(tok, *t).is_some()).collect()
 }
@@ -352,7 +393,10 @@ fn gen_script(rng: &mut Rng, input: &[u8], hints: &[(usize, ROp)], max_ops: usiz
 
 pub fn gen_case(rng: &mut Rng, buf: usize, class: SizeClass) -> GenOut {
     let mut hints = Vec::new();
-    let input = gen_input(rng, class, buf, &mut hints);
+    let mut input = gen_input(rng, class, buf, &mut hints);
+    if class == SizeClass::Long && rng.chance(1, 3) {
+        pad_to_buffer_multiple(rng, &mut input, &mut hints, buf);
+    }
     let max_ops = match class {
         SizeClass::Tiny => 6,
         SizeClass::Short => 40,
